@@ -161,7 +161,8 @@ UNIT = {
 
 NOT_DECIDED = {
     'C06': [
-        'operator precedence and associativity: data in the generated LALR tables (lalr.rs) - no contract on the table-driven parse loop short of re-deriving the automaton; reduce actions in parser.rs',
+        'operator precedence and associativity: data in the generated LALR tables (lalr.rs) and the table lookups of the driver loop: only the BOUNDED stand-in operator-precedence-round-trip looks at them (every ordered pair and triple of operators); '
+        'which AstNode each reduce action builds is not under contract',
         'numeric literal assembly and keyword recognition in read_next_token (slice patterns over the 12-character window) - not yet under contract',
         'consume_name (C10) - not yet under contract',
     ],
@@ -176,3 +177,11 @@ ASSUMPTIONS = [
     'A-std (RFC 3629): String::from_utf8 accepts exactly well-formed UTF-8 and chars().next() yields the first scalar value (stub utf8_first, rule R15)',
     'R1, R7, R15; opaque Scope, Name, error constructors',
 ]
+
+BOUNDED = {
+    'C06': [{'name': 'operator-precedence-round-trip', 'script': 'precdiff.py', 'args': ['--depth', '3'],
+             'functions': ['feel-parser/src/lalr.rs (tables)', 'Parser::parse (table lookups)', 'Lexer::read_next_token / consume_name for operators, keywords and the type name after `instance of`'],
+             'bound': 'every syntax tree of one, two or three nested operators (every ordered pair and triple, every operand position) over or, and, =, <, between, in, +, -, *, /, **, unary minus, instance of, filter, path with bound '
+                      'single-word names as leaves (about 5 900 trees, 31 000 parses): fully parenthesised and minimally parenthesised renderings give the same tree, one needed pair of parentheses removed gives a different tree; '
+                      'minimal parenthesisation computed from the precedence declarations of feel-grammar/src/feel.y with the yacc conflict rule'}],
+}
